@@ -9,7 +9,7 @@ TRUSTED = [
 RULE = ("structured generator over all structure tags, all algorithm and curve identifiers, both key kinds, attribute words (each single bit, random words), variable-length "
         "fields of sizes {0,1,2,31,32,255,256,hundreds}; direct evaluation of every decoded field against the generator's values; truncations and random bytes (outcome class only). "
         "distinct_nontrivial = distinct inputs")
-LENS = [0, 1, 2, 31, 32, 255, 256, 300, 700]
+LENS = [0, 1, 2, 31, 32, 255, 256, 300, 700] + [n for n in fw.size_ladder(cap=65535) if n not in (255, 256, 300, 700)] + [65535]      # every TPM2B size the 16-bit prefix can carry
 
 
 def tables():
@@ -68,7 +68,7 @@ def run(tier, seed):
         magic = rb(4) if rng.random() < 0.5 else b"\xffTCG"
         qs, ed, qn = rb(c.get("qs", 34)), rb(c.get("ed", 32)), rb(c.get("qn", 34))
         name_alg = c.get("name_alg", 0x000B)
-        name = struct.pack(">H", name_alg) + rb(c.get("name_tail", 32))
+        name = struct.pack(">H", name_alg) + rb(min(c.get("name_tail", 32), 65533))
         clock, reset, restart, safe, fwv = rb(8), rng.randrange(2 ** 32), rng.randrange(2 ** 32), rng.choice([0, 1, 2, 255]), rb(8)
         b = magic + struct.pack(">H", tag) + struct.pack(">H", len(qs)) + qs + struct.pack(">H", len(ed)) + ed + clock + struct.pack(">II", reset, restart) + bytes([safe]) + fwv \
             + struct.pack(">H", len(name)) + name + struct.pack(">H", len(qn)) + qn
